@@ -73,16 +73,19 @@ Init == /\ cfg = [i \in Insts |-> NoCfg] /\ hist = [i \in Insts |-> << >>]
 
 Samples == SampleIds \X FaultSet
 (* construct over a recorded history: one outcome per sample *)
-Batch(i, c, h) == /\ how[i] = "none" /\ Len(h) >= 2 /\ Len(h) <= MaxLen
+Batch(i, c, h) == /\ how[i] = "none" /\ Len(h) >= 2 /\ Len(h) <= MaxLen /\ h[1][2] = "ok"
                   /\ \E o \in [1..Len(h) -> {"Ok", "Skipped", "Rejected"}] :
                         /\ \A k \in 1..Len(h) : o[k] \in AllowedOutcomes(c, h[k][2])
                         /\ outs' = [outs EXCEPT ![i] = [k \in 1..Len(h) |-> o[k]]]
                   /\ cfg' = [cfg EXCEPT ![i] = c] /\ hist' = [hist EXCEPT ![i] = h]
                   /\ how' = [how EXCEPT ![i] = "batch"] /\ UNCHANGED dead
-(* create without data, then feed one sample at a time *)
-Create(i, c)   == /\ how[i] = "none" /\ Streams(c)
-                  /\ cfg' = [cfg EXCEPT ![i] = c] /\ how' = [how EXCEPT ![i] = "stream"]
-                  /\ UNCHANGED <<hist, outs, dead>>
+(* create without data and take the initial attitude a batch run derives from its first   *)
+(* sample s0 (the given q0 where the class honours one): row 1 of a batch run IS that      *)
+(* initial attitude, the first update consumes the second sample                           *)
+Create(i, c, s0) == /\ how[i] = "none" /\ Streams(c) /\ s0[2] = "ok"
+                    /\ cfg' = [cfg EXCEPT ![i] = c] /\ how' = [how EXCEPT ![i] = "stream"]
+                    /\ hist' = [hist EXCEPT ![i] = << s0 >>] /\ outs' = [outs EXCEPT ![i] = << "Ok" >>]
+                    /\ UNCHANGED dead
 Update(i, s)   == /\ how[i] = "stream" /\ ~dead[i] /\ Len(hist[i]) < MaxLen
                   /\ \E o \in AllowedOutcomes(cfg[i], s[2]) :
                         /\ outs' = [outs EXCEPT ![i] = Append(@, o)]
@@ -90,7 +93,7 @@ Update(i, s)   == /\ how[i] = "stream" /\ ~dead[i] /\ Len(hist[i]) < MaxLen
                   /\ hist' = [hist EXCEPT ![i] = Append(@, s)]
                   /\ UNCHANGED <<cfg, how>>
 Next == \E i \in Insts :
-           \/ \E c \in CfgSet : Create(i, c)
+           \/ \E c \in CfgSet : \E s0 \in Samples : Create(i, c, s0)
            \/ \E s \in Samples : Update(i, s)
            \/ \E c \in CfgSet : \E n \in 2..MaxLen : \E h \in [1..n -> Samples] : Batch(i, c, h)
 Spec == Init /\ [][Next]_vars
@@ -104,4 +107,11 @@ FaultFreeIsOk   == \A i \in Insts : \A k \in 1..Len(hist[i]) : hist[i][k][2] = "
 Isolation == [][ \A i, j \in Insts : (i # j /\ hist'[i] # hist[i]) => (hist'[j] = hist[j] /\ outs'[j] = outs[j] /\ cfg'[j] = cfg[j]) ]_vars
 (* C06: batch and streaming reach the same abstract state: equal (cfg, history) => equal outcomes *)
 SameAbstractState(i, j) == cfg[i] = cfg[j] /\ hist[i] = hist[j] /\ cfg[i] # NoCfg
+(* ... and then they have produced the same outcomes, whichever way each got there *)
+BatchEqualsStream == \A i, j \in Insts : (SameAbstractState(i, j) /\ FaultSet = {"ok"}) => outs[i] = outs[j]
+(* drop an instance (the harness deletes the object): the slot can be reused *)
+Drop(i) == /\ how[i] # "none" /\ cfg' = [cfg EXCEPT ![i] = NoCfg] /\ hist' = [hist EXCEPT ![i] = << >>]
+           /\ outs' = [outs EXCEPT ![i] = << >>] /\ how' = [how EXCEPT ![i] = "none"] /\ dead' = [dead EXCEPT ![i] = FALSE]
+NextD == Next \/ \E i \in Insts : Drop(i)
+SpecD == Init /\ [][NextD]_vars
 =============================================================================
